@@ -76,6 +76,55 @@ Theorem C07_batched_check_is_the_model : forall (F : Type) (NF : Num F) (logm : 
 Proof. exact (@extrap_full_pre_eq). Qed.
 Print Assumptions C07_batched_check_is_the_model.
 
+(** How the spacings are typed.  A spacing may be written as an integer ([XInt]: python int - the documented type of
+    extrap_x_l is list[int] -, numpy integer scalar, element of an integer array, integer .extrap_x) or as a float
+    ([XNum]), in any mixture; the typed call is the untyped one on the numbers denoted.  So: the result depends on the
+    numbers only, all-integer lists are exact like any other, and an implementation that keeps the weights of an
+    all-integer list in an integer container is refuted.  (The tie to Numerics.py: the translated closed formulas use
+    true division on scalars; the generator hands every accepted container / scalar type to the real code on every run.) *)
+Theorem C07_typing_of_spacings_irrelevant : forall (logm : bool) fm (xs xs' : list (@xval R)) (ys : list R),
+  map xnum xs = map xnum xs' ->
+  extrap_entry_typed xs ys = extrap_entry_typed xs' ys /\ extrap_full_typed logm fm xs ys = extrap_full_typed logm fm xs' ys.
+Proof. intros logm fm xs xs' ys E. split; [exact (typing_irrelevant xs xs' ys E) | exact (typing_irrelevant_full logm fm xs xs' ys E)]. Qed.
+Print Assumptions C07_typing_of_spacings_irrelevant.
+
+Theorem C07_integers_are_the_floats_they_denote : forall zs : list Z,
+  map xnum (map (@XInt R) zs) = map xnum (map (fun z => XNum (IZR z)) zs).
+Proof. exact int_written_as_float. Qed.
+
+Theorem C07_typed_spacings_exact : forall (cs : list R) (xs : list (@xval R)),
+  length cs = length xs -> (1 <= length xs <= 6)%nat -> NoDup (map xnum xs) ->
+  extrap_entry_typed xs (map (peval cs) (map xnum xs)) = Some (hd 0 cs).
+Proof. exact typed_exact. Qed.
+Print Assumptions C07_typed_spacings_exact.
+
+Theorem C07_integer_spacings_exact : forall (cs : list R) (zs : list Z),
+  length cs = length zs -> (1 <= length zs <= 6)%nat -> NoDup zs ->
+  extrap_entry_typed (map XInt zs) (map (peval cs) (map IZR zs)) = Some (hd 0 cs).
+Proof. exact integer_spacings_exact. Qed.
+Print Assumptions C07_integer_spacings_exact.
+
+Theorem C07_integer_spacings_log_exact : forall (cs : list R) (zs : list Z) (ys : list R),
+  length cs = length zs -> (1 <= length zs <= 6)%nat -> NoDup zs ->
+  map ln ys = map (peval cs) (map IZR zs) ->
+  option_map exp (extrap_entry_typed (map XInt zs) (map ln ys)) = Some (exp (hd 0 cs)).
+Proof. exact integer_spacings_log_exact. Qed.
+
+(** weights of an all-integer list cut to integers (toward zero: numpy.empty_like of an integer array / a C cast; or
+    floored: integer division) are not exact although the model is: f(x) = x on the spacings 2, 7, 11, 13. *)
+Theorem C07_integer_weights_refuted :
+  exists (zs : list Z) (cs : list R), length cs = length zs /\ NoDup zs /\
+    extrap_entry_typed (map XInt zs) (map (peval cs) (map IZR zs)) = Some (hd 0 cs) /\
+    lagrange0_intweights Z.quot zs (map (peval cs) (map IZR zs)) <> hd 0 cs /\
+    lagrange0_intweights Z.div zs (map (peval cs) (map IZR zs)) <> hd 0 cs.
+Proof. exact integer_weights_refuted. Qed.
+
+(** the check of the closed formulas called directly (no logarithm, no fallback) evaluates the model, for every number type *)
+Theorem C07_direct_check_is_the_model : forall (F : Type) (NF : Num F) (xs ys : list F),
+  extrap_entry_w xs (map (lag0_weight xs) xs) ys = extrap_entry xs ys.
+Proof. exact (@extrap_entry_w_eq). Qed.
+Print Assumptions C07_direct_check_is_the_model.
+
 (** non-vacuity: a concrete cubic at four distinct spacings *)
 Example C07_nonvacuous :
   extrap_entry [1; 2; 4; 8] (map (peval [5; -1; 3; 2]) [1; 2; 4; 8]) = Some 5.
